@@ -32,6 +32,9 @@ use tachys::{
 };
 
 type S = String;
+type Str = &'static str;
+type Cw = std::borrow::Cow<'static, str>;
+type Ar = std::sync::Arc<str>;
 type Div<A, C> = HtmlElement<el::Div, A, C>;
 type Span<A, C> = HtmlElement<el::Span, A, C>;
 type P<A, C> = HtmlElement<el::P, A, C>;
@@ -72,6 +75,19 @@ fn install_shapes() {
         Div<(IdS, Cls, Sty), (S,)>,
         // several sources for one attribute (they interfere)
         Div<(Cls, TCls), ()>, Div<(OCls, TCls), ()>, Div<(Sty, PSty), ()>, Div<(TitleO, LangO), ()>,
+        // text children of the other string types (values: fresh allocations or slices of one buffer)
+        Str, Cw, Ar, (S, Str, S), (Str, Cw), Vec<Str>, Option<Str>, Option<Cw>, Either<Str, ()>, Either<Cw, Str>,
+        P<(), (Span<(), (S,)>, Str)>, P<(), (Str, S)>, Div<(IdS,), (Cw,)>, Div<(), (Ar,)>, (Ar, S), Vec<Ar>,
+        (AnyView, Str), Vec<Cw>,
+        // arrays; `[T; 0]` renders no node: as first / middle / last tuple member, inside the old
+        // branch of every switching wrapper
+        [S; 0], [S; 2], [Option<S>; 2], (S, [S; 2], S), (S, [S; 0]), ([S; 0], S), (S, [S; 0], S), ([S; 0], [S; 0], S),
+        ([S; 0], Span<(), (S,)>), Div<(), ([S; 0], S)>, Vec<[S; 0]>, Vec<([S; 0], S)>,
+        Either<([S; 0], Span<(), (S,)>), P<(), (S,)>>, Either<(S, [S; 0]), ([S; 0], S)>,
+        EitherOf3<([S; 0], S), ([S; 0], [S; 0], S), Vec<S>>, Option<([S; 0], S)>, Option<(S, [S; 0])>,
+        Either<[S; 2], ([S; 0], [S; 2])>,
+        // node-less OLD branches (the new branch is never mounted: F-C03-6)
+        Either<[S; 0], S>, Option<[S; 0]>, Either<([S; 0], [S; 0]), Span<(), (S,)>>, EitherOf3<[S; 0], S, ()>,
         // keyed
         KeyedList, (S, KeyedList, S), Ul<(IdS,), (KeyedList,)>, Option<KeyedList>,
     ]);
@@ -270,7 +286,7 @@ fn gen(seed: u64, n: usize, path: &str, tier: &str) -> std::io::Result<()> {
     let lean_keyed = std::env::var("C03_KEYED").map(|v| v != "0").unwrap_or(LEAN_HAS_KEYED);
     let tops: Vec<TyD> =
         registry().iter().map(|s| s.ty.clone()).filter(|t| lean_keyed || !t.has_keyed()).collect();
-    let mut any_tys = tops.clone();
+    let mut any_tys: Vec<TyD> = tops.iter().filter(|t| !t.has_arc()).cloned().collect();
     any_tys.sort_by_key(|t| t.depth());
     let max_rebuilds = if tier == "thorough" { 6 } else { 4 };
     for i in 0..n {
